@@ -320,46 +320,59 @@ def check_treewalk(ctx, out, rule="C03.walk"):
     n = 0
     samples = []
     lp = [b for b in ctx.reachable_bodies() if b.promoted is None and b.id.startswith("blockwatch::language_parsers") or "language_parsers::" in b.id and b.promoted is None and b.id in ctx.reach]
+    MOVE = r"tree_sitter::TreeCursor::<'cursor>::goto_(first_child|next_sibling)$"
+    called = {(t.get("res") or "") for b in lp for _, t in b.calls()}
+    for b0 in lp:
+        if b0.promoted is not None or b0.kind == "Closure" or b0.id in called:
+            continue
+        # the walker in its inlined view: the cursor moves may sit in a helper (`goto_next_node`)
+        b = ctx.inl(b0, tag="all")
+        moves = [(bi, t) for bi, t in b.calls() if callee_matches(t, MOVE)]
+        if not moves:
+            continue
+        cfg = cfg_of(b)
+        visits = {bi for bi, t in b.calls() if callee_matches(t, r"tree_sitter::TreeCursor::<'cursor>::node$")}
+        move_bbs = {bi for bi, t in moves}
+        for bi, t in moves:
+            nm = callee_name(t).split("::")[-1]
+            if nm == "goto_first_child":
+                h = cfg.innermost_loop(bi)
+                # the outermost loop of the walk: descent must not depend on what the node is
+                hs = cfg.loops_containing(bi)
+                inloop = set()
+                for hh in hs:
+                    inloop |= cfg.loops()[hh]
+                bad = None
+                for br, vals, e in util.guards(ctx, b, bi):
+                    if br not in inloop:
+                        continue
+                    txt = render(e, 400)
+                    if re.search(r"Node::kind|is_named|child_count|node_visitor|FnOnce|call_once|Fn::call", txt):
+                        bad = txt
+                if bad:
+                    out.viol(rule, "%s|%s|conditional-descent" % (rule, b0.id), ctx.where(b0, t["span"]),
+                             "the tree walk descends into a node's children only under `%s`: comments nested below other nodes are never visited" % bad[:140])
+                else:
+                    n += 1
+            sw = cfg.succ[bi][0] if cfg.succ[bi] else None
+            tt = b.blocks[sw]["term"] if sw is not None else None
+            if not tt or tt["k"] != "switch":
+                out.viol(rule, "%s|%s|%s|unchecked-move" % (rule, b0.id, nm), ctx.where(b0, t["span"]), "the result of `%s` is not branched on" % nm)
+                continue
+            arms = util.switch_arms(b, sw)
+            moved = arms["otherwise"] if 0 in arms else arms.get(1)
+            # from the arrival, another move must not be reachable without a visit in between
+            r = cfg.reach(moved, avoid=visits)
+            skipped = sorted(x for x in r if x in move_bbs)
+            if moved in visits or not skipped:
+                n += 1
+                samples.append("%s->visit" % nm)
+            else:
+                out.viol(rule, "%s|%s|%s|unvisited" % (rule, b0.id, nm), ctx.where(b0, t["span"]),
+                         "after a successful `%s` the cursor can move on before the node it arrived at is offered to the comment visitor" % nm)
     for b in lp:
         cfg = cfg_of(b)
         E = ctx.expr(b)
-        moves = [(bi, t) for bi, t in b.calls() if callee_matches(t, r"tree_sitter::TreeCursor::<'cursor>::goto_(first_child|next_sibling)$")]
-        if moves:
-            def visits(c):
-                cb = ctx.facts.body(c.get("res") or "")
-                return cb is not None and any(callee_matches(t2, r"tree_sitter::TreeCursor::<'cursor>::node$") for _, t2 in cb.calls())
-            for bi, t in moves:
-                nm = callee_name(t).split("::")[-1]
-                if nm == "goto_first_child":
-                    h = cfg.innermost_loop(bi)
-                    inloop = cfg.loops()[h] if h is not None else set(range(cfg.n))
-                    for br, vals, e in util.guards(ctx, b, bi):
-                        # a `return Some(comment)` before the loop only suspends the walk: the next
-                        # call resumes at the loop head, which descends first
-                        if br not in inloop:
-                            continue
-                        txt = render(e, 400)
-                        if re.search(r"Node::kind|comment_from_current_node|node_visitor|is_named|child_count", txt):
-                            out.viol(rule, "%s|%s|conditional-descent" % (rule, b.id), ctx.where(b, t["span"]),
-                                     "the tree walk descends into a node's children only under `%s`: comments nested below other nodes are never visited" % txt[:140])
-                            break
-                    else:
-                        n += 1
-                sw = cfg.succ[bi][0] if cfg.succ[bi] else None
-                tt = b.blocks[sw]["term"] if sw is not None else None
-                if not tt or tt["k"] != "switch":
-                    out.viol(rule, "%s|%s|%s|unchecked-move" % (rule, b.id, nm), ctx.where(b, t["span"]), "the result of `%s` is not branched on" % nm)
-                    continue
-                arms = util.switch_arms(b, sw)
-                moved = arms["otherwise"] if 0 in arms else arms.get(1)
-                x = util.skip_trivial(b, moved)
-                t2 = b.blocks[x]["term"]
-                if t2 and t2["k"] == "call" and visits(t2):
-                    n += 1
-                    samples.append("%s->visit" % nm)
-                else:
-                    out.viol(rule, "%s|%s|%s|unvisited" % (rule, b.id, nm), ctx.where(b, t["span"]),
-                             "after a successful `%s` the node the cursor arrived at is not offered to the comment visitor" % nm)
         for bi, t in b.calls():
             if callee_matches(t, r"tree_sitter::QueryCursor::(matches|captures)$"):
                 labs = ctx.prov.read_operand(b, t["args"][2])
